@@ -28,7 +28,11 @@ Record Inv (s : st) : Prop := mkInv {
   (* a record value in a cell refers to a record context *)
   i_recval : forall id cl tn c, nm_get id (s_cells s) = Some cl -> c_val cl = PRec tn c -> rec_ctx s c;
   (* so does a record value kept as a function's return value *)
-  i_retval : forall id cx r tn c, nm_get id (s_ctxs s) = Some cx -> x_retval cx = Some r -> r_val r = Some (PRec tn c) -> rec_ctx s c }.
+  i_retval : forall id cx r tn c, nm_get id (s_ctxs s) = Some cx -> x_retval cx = Some r -> r_val r = Some (PRec tn c) -> rec_ctx s c;
+  (* the payload of a cell is of the kind its declared type says: no value is ever reinterpreted as another type *)
+  i_kind : forall id cl, nm_get id (s_cells s) = Some cl -> payload_kind (c_val cl) = dk (c_type cl);
+  (* and a kept return value is of the kind its own type says *)
+  i_retkind : forall id cx r p, nm_get id (s_ctxs s) = Some cx -> x_retval cx = Some r -> r_val r = Some p -> payload_kind p = dk (r_type r) }.
 
 (* ------------------------------------------------------------------ what every computation keeps *)
 Definition same_ctx_kind (c c' : ctx) : Prop := x_isrec c' = x_isrec c.
@@ -150,7 +154,7 @@ Lemma ro_get_ctx id : ro (get_ctx id). Proof. intros s. unfold get_ctx. destruct
 Definition heap_same (s s' : st) : Prop := s_next s' = s_next s /\ s_cells s' = s_cells s /\ s_arrs s' = s_arrs s /\ s_ctxs s' = s_ctxs s.
 Lemma Inv_heap_same s s' : heap_same s s' -> Inv s -> Inv s'.
 Proof.
-  intros [H1 [H2 [H3 H4]]] [A B C D E]. constructor; unfold hb, rec_ctx in *; rewrite ?H1, ?H2, ?H3, ?H4; auto.
+  intros [H1 [H2 [H3 H4]]] [A B C D E F G]. constructor; unfold hb, rec_ctx in *; rewrite ?H1, ?H2, ?H3, ?H4; auto.
 Qed.
 Lemma K_heap_same s s' : heap_same s s' -> K s s'.
 Proof.
@@ -171,6 +175,16 @@ Lemma valok_nonrec v s : (forall tn c, v <> PRec tn c) -> valok v s.
 Proof. intros H tn c E. exfalso. eapply H; eauto. Qed.
 Lemma rec_ctx_kind s c : rec_ctx s c <-> ctxkind c true s.
 Proof. unfold rec_ctx, ctxkind. tauto. Qed.
+(* the value is of the kind the cell's declared type says *)
+Definition fits (id : N) (v : payload) (s : st) : Prop := exists cl, nm_get id (s_cells s) = Some cl /\ payload_kind v = dk (c_type cl).
+Lemma stable_fits id v : stable (fits id v).
+Proof. intros s s' H [cl [E F]]. destruct (k_meta _ _ H id cl E) as [cl' [E' [_ [M2 _]]]]. exists cl'. split; [exact E'|congruence]. Qed.
+Lemma cellmeta_fits id cl v s : cellmeta id cl s -> payload_kind v = dk (c_type cl) -> fits id v s.
+Proof. intros [c' [E [_ [M2 _]]]] H. exists c'. split; [exact E|congruence]. Qed.
+(* a result: a record value refers to a record context, and the value is of the kind the result's type says *)
+Definition resok (r : result) (s : st) : Prop := forall p, r_val r = Some p -> valok p s /\ payload_kind p = dk (r_type r).
+Lemma stable_resok r : stable (resok r).
+Proof. intros s s' H R p E. destruct (R p E) as [A B]. split; [eapply stable_valok; eauto|exact B]. Qed.
 Definition nonconst (id : N) (s : st) : Prop := exists cl, nm_get id (s_cells s) = Some cl /\ c_const cl = false.
 Lemma stable_nonconst id : stable (nonconst id).
 Proof. intros s s' H [cl [E C]]. destruct (k_meta _ _ H id cl E) as [cl' [E' [_ [_ [M3 _]]]]]. exists cl'. split; [exact E'|congruence]. Qed.
@@ -181,10 +195,10 @@ Proof. intros H s s' HK HF. eapply Forall_impl; [|exact HF]. intros x Hx. eapply
 
 (* reading a cell: its name, type, flag and owner are known from now on; a record value in it refers to a record context *)
 Lemma tr_get_cell (P : st -> Prop) id :
-  tr P (get_cell id) (fun cl s => cellmeta id cl s /\ valok (c_val cl) s).
+  tr P (get_cell id) (fun cl s => cellmeta id cl s /\ valok (c_val cl) s /\ payload_kind (c_val cl) = dk (c_type cl)).
 Proof.
   intros s HI HP. unfold get_cell. destruct (nm_get id (s_cells s)) as [cl|] eqn:E; cbn [fst snd]; (split; [exact HI|]; split; [apply K_refl|]); [|exact I].
-  split; [exists cl; split; [exact E|apply same_meta_refl]|]. intros tn c Ev. apply rec_ctx_kind. eapply (i_recval s HI); eauto.
+  split; [exists cl; split; [exact E|apply same_meta_refl]|]. split; [|eapply (i_kind s HI); eauto]. intros tn c Ev. apply rec_ctx_kind. eapply (i_recval s HI); eauto.
 Qed.
 (* reading an array: its elements may be written *)
 Lemma tr_get_arr (P : st -> Prop) id :
@@ -194,9 +208,9 @@ Proof.
   apply Forall_forall. intros e He. destruct (i_elems s HI id ar e E He) as [cl [Ecl C]]. exists cl. auto.
 Qed.
 (* reading a context: its kind is known; the variables of a record's context may be written; a kept return value is a proper value *)
-Definition retok (cx : ctx) (s : st) : Prop := forall r tn c, x_retval cx = Some r -> r_val r = Some (PRec tn c) -> ctxkind c true s.
+Definition retok (cx : ctx) (s : st) : Prop := forall r, x_retval cx = Some r -> resok r s.
 Lemma stable_retok cx : stable (retok cx).
-Proof. intros s s' H R r tn c E1 E2. eapply stable_ctxkind; eauto. Qed.
+Proof. intros s s' H R r E1. eapply stable_resok; eauto. Qed.
 Lemma tr_get_ctx (P : st -> Prop) id :
   tr P (get_ctx id) (fun cx s => ctxkind id (x_isrec cx) s /\ (x_isrec cx = true -> Forall (fun nv : str * N => wr (snd nv) s) (x_vars cx)) /\ retok cx s).
 Proof.
@@ -204,7 +218,7 @@ Proof.
   split; [exists cx; auto|]. split.
   - intros Hr. apply Forall_forall. intros [nm v] Hin.
     destruct (i_recvars s HI id cx nm v E Hr Hin) as [cl [Ecl Ho]]. exists cl. split; [exact Ecl|]. right. right. exact Ho.
-  - intros r tn c E1 E2. apply rec_ctx_kind. eapply (i_retval s HI); eauto.
+  - intros r E1 p E2. split; [|eapply (i_retkind s HI); eauto]. intros tn c ->. apply rec_ctx_kind. eapply (i_retval s HI); eauto.
 Qed.
 
 (* ---- writing a payload ---- *)
@@ -213,16 +227,16 @@ Proof. intros E [cx H]. exists cx. rewrite E. exact H. Qed.
 Lemma plain_ctx_same_ctxs s s' c : s_ctxs s' = s_ctxs s -> plain_ctx s c -> plain_ctx s' c.
 Proof. intros E [cx H]. exists cx. rewrite E. exact H. Qed.
 
-Lemma tr_set_cell_val (P : st -> Prop) id v : (forall s, P s -> wr id s /\ valok v s) -> tr P (set_cell_val id v) (fun _ _ => True).
+Lemma tr_set_cell_val (P : st -> Prop) id v : (forall s, P s -> wr id s /\ valok v s /\ fits id v s) -> tr P (set_cell_val id v) (fun _ _ => True).
 Proof.
-  intros Hpre s HI HP. destruct (Hpre s HP) as [[c0 [E0 U0]] HV]. unfold set_cell_val, bind, get_cell. rewrite E0. cbn [fst snd put_cell modify].
+  intros Hpre s HI HP. destruct (Hpre s HP) as [[c0 [E0 U0]] [HV [c1 [E1 HF]]]]. assert (c1 = c0) by congruence. subst c1. unfold set_cell_val, bind, get_cell. rewrite E0. cbn [fst snd put_cell modify].
   set (c' := mkCell (c_name c0) (c_type c0) (c_const c0) (c_owner c0) v).
   set (s' := set_cells (nm_put id c' (s_cells s)) s).
   assert (Ec : s_ctxs s' = s_ctxs s) by reflexivity.
   assert (G : forall j, nm_get j (s_cells s') = if N.eq_dec id j then Some c' else nm_get j (s_cells s)).
   { intros j. unfold s'. cbn. destruct (N.eq_dec id j) as [<-|Hne]; [apply nm_get_put_same|apply nm_get_put_other; exact Hne]. }
   split; [|split; [|exact I]].
-  - destruct HI as [[H1 [H2 H3]] B C D E]. constructor.
+  - destruct HI as [[H1 [H2 H3]] B C D E IK IR]. constructor.
     + split; [|split]; [|exact H2|exact H3]. intros j x Ex. rewrite G in Ex. destruct (N.eq_dec id j) as [<-|Hne]; [apply (H1 id c0 E0)|apply (H1 j x Ex)].
     + intros rc cx nm j Erc Hr Hin. destruct (B rc cx nm j Erc Hr Hin) as [cl [Ecl Ho]]. rewrite G. destruct (N.eq_dec id j) as [<-|Hne].
       * exists c'. split; [reflexivity|]. assert (cl = c0) by congruence. subst cl. cbn. apply (rec_ctx_same_ctxs s s' _ Ec Ho).
@@ -234,6 +248,8 @@ Proof.
       * inversion Ej; subst cl. cbn in Ev. apply (rec_ctx_same_ctxs s s' _ Ec). apply rec_ctx_kind. eapply HV; eauto.
       * apply (rec_ctx_same_ctxs s s' _ Ec). eapply D; eauto.
     + intros j cx r tn c Ej Er Ev. apply (rec_ctx_same_ctxs s s' _ Ec). eapply E; eauto.
+    + intros j cl Ej. rewrite G in Ej. destruct (N.eq_dec id j) as [<-|Hne]; [inversion Ej; subst cl; cbn; exact HF|eapply IK; eauto].
+    + intros j cx r p Ej Er Ev. eapply IR; eauto.
   - constructor.
     + cbn. lia.
     + intros j cl Ej. rewrite G. destruct (N.eq_dec id j) as [<-|Hne].
@@ -260,14 +276,14 @@ Proof.
   - intros id cl E _. apply E1. exact E.
 Qed.
 
-Lemma alloc_cell_inv cl s : Inv s -> valok (c_val cl) s ->
+Lemma alloc_cell_inv cl s : Inv s -> valok (c_val cl) s -> payload_kind (c_val cl) = dk (c_type cl) ->
   Inv (alloc_cell cl s) /\ K s (alloc_cell cl s) /\ cellmeta (s_next s) cl (alloc_cell cl s).
 Proof.
-  intros HI HV. destruct (alloc_cell_spec cl s (i_hb s HI)) as [Hb' [[Hext [_ Hn]] Hg]].
+  intros HI HV HKd. destruct (alloc_cell_spec cl s (i_hb s HI)) as [Hb' [[Hext [_ Hn]] Hg]].
   assert (Ec : s_ctxs (alloc_cell cl s) = s_ctxs s) by reflexivity.
   assert (Ea : s_arrs (alloc_cell cl s) = s_arrs s) by reflexivity.
   split; [|split; [apply K_of_ext; auto|exists cl; split; [exact Hg|apply same_meta_refl]]].
-  destruct HI as [A B C D E]. constructor; [exact Hb'| | | |].
+  destruct HI as [A B C D E IK IR]. constructor; [exact Hb'| | | | | |].
   - intros rc cx nm j Erc Hr Hin. rewrite Ec in Erc. destruct (B rc cx nm j Erc Hr Hin) as [x [Ex Ho]].
     exists x. split; [apply (proj1 Hext); exact Ex|apply (rec_ctx_same_ctxs s _ _ Ec Ho)].
   - intros a ar e Ea' He. rewrite Ea in Ea'. destruct (C a ar e Ea' He) as [x [Ex Hc]]. exists x. split; [apply (proj1 Hext); exact Ex|exact Hc].
@@ -276,16 +292,20 @@ Proof.
     + rewrite Hg in Ej. inversion Ej; subst x. apply rec_ctx_kind. eapply HV; eauto.
     + unfold alloc_cell in Ej. cbn in Ej. rewrite nm_get_put_other in Ej by exact Hne. eapply D; eauto.
   - intros j cx r tn c Ej Er Ev. rewrite Ec in Ej. apply (rec_ctx_same_ctxs s _ _ Ec). eapply E; eauto.
+  - intros j x Ej. destruct (N.eq_dec (s_next s) j) as [<-|Hne].
+    + rewrite Hg in Ej. inversion Ej; subst x. exact HKd.
+    + unfold alloc_cell in Ej. cbn in Ej. rewrite nm_get_put_other in Ej by exact Hne. eapply IK; eauto.
+  - intros j cx r p Ej Er Ev. rewrite Ec in Ej. eapply IR; eauto.
 Qed.
 
 Lemma tr_alloc_cell {B} (P : st -> Prop) cl (k : N -> M B) R : stable P ->
-  (forall s, P s -> valok (c_val cl) s) ->
+  (forall s, P s -> valok (c_val cl) s /\ payload_kind (c_val cl) = dk (c_type cl)) ->
   (forall id, tr (fun s => P s /\ cellmeta id cl s) (k id) R) ->
   tr P (id <- fresh ;; put_cell id cl ;;; k id) R.
 Proof.
   intros SP HV Hk s HI HP. unfold bind, fresh, put_cell, modify. cbn [fst snd].
   change (set_cells _ _) with (alloc_cell cl s).
-  destruct (alloc_cell_inv cl s HI (HV s HP)) as [I1 [K1 M1]].
+  destruct (alloc_cell_inv cl s HI (proj1 (HV s HP)) (proj2 (HV s HP))) as [I1 [K1 M1]].
   destruct (Hk (s_next s) (alloc_cell cl s) I1 (conj (SP _ _ K1 HP) M1)) as [I2 [K2 Q2]].
   split; [exact I2|]. split; [eapply K_trans; eauto|exact Q2].
 Qed.
@@ -296,7 +316,7 @@ Proof.
   assert (Ec : s_ctxs (alloc_arr a s) = s_ctxs s) by reflexivity.
   assert (Ece : s_cells (alloc_arr a s) = s_cells s) by reflexivity.
   split; [|apply K_of_ext; auto].
-  destruct HI as [A B C D E]. constructor; [exact Hb'| | | |].
+  destruct HI as [A B C D E IK IR]. constructor; [exact Hb'| | | | | |].
   - intros rc cx nm j Erc Hr Hin. rewrite Ec in Erc. rewrite Ece. destruct (B rc cx nm j Erc Hr Hin) as [x [Ex Ho]].
     exists x. split; [exact Ex|apply (rec_ctx_same_ctxs s _ _ Ec Ho)].
   - intros j ar e Ej He. rewrite Ece. destruct (N.eq_dec (s_next s) j) as [<-|Hne].
@@ -304,6 +324,8 @@ Proof.
     + unfold alloc_arr in Ej. cbn in Ej. rewrite nm_get_put_other in Ej by exact Hne. eapply C; eauto.
   - intros j x tn c Ej Ev. rewrite Ece in Ej. apply (rec_ctx_same_ctxs s _ _ Ec). eapply D; eauto.
   - intros j cx r tn c Ej Er Ev. rewrite Ec in Ej. apply (rec_ctx_same_ctxs s _ _ Ec). eapply E; eauto.
+  - intros j x Ej. rewrite Ece in Ej. eapply IK; eauto.
+  - intros j cx r p Ej Er Ev. rewrite Ec in Ej. eapply IR; eauto.
 Qed.
 Lemma tr_alloc_arr {B} (P : st -> Prop) a (k : N -> M B) R : stable P ->
   (forall s, P s -> Forall (fun e => nonconst e s) (a_elems a)) ->
@@ -323,7 +345,7 @@ Proof.
   assert (Ece : s_cells (alloc_ctx cx s) = s_cells s) by reflexivity.
   assert (Ea : s_arrs (alloc_ctx cx s) = s_arrs s) by reflexivity.
   split; [|split; [apply K_of_ext; auto|exists cx; auto]].
-  destruct HI as [A B C D E]. constructor; [exact Hb'| | | |].
+  destruct HI as [A B C D E IK IR]. constructor; [exact Hb'| | | | | |].
   - intros rc cx0 nm j Erc Hr Hin. rewrite Ece. destruct (N.eq_dec (s_next s) rc) as [<-|Hne].
     + rewrite Hg in Erc. inversion Erc; subst cx0. rewrite HE in Hin. contradiction.
     + unfold alloc_ctx in Erc. cbn in Erc. rewrite nm_get_put_other in Erc by exact Hne.
@@ -333,6 +355,10 @@ Proof.
   - intros j cx0 r tn c Ej Er Ev. eapply rec_ctx_ext; [exact Hext|]. destruct (N.eq_dec (s_next s) j) as [<-|Hne].
     + rewrite Hg in Ej. inversion Ej; subst cx0. congruence.
     + unfold alloc_ctx in Ej. cbn in Ej. rewrite nm_get_put_other in Ej by exact Hne. eapply E; eauto.
+  - intros j x Ej. rewrite Ece in Ej. eapply IK; eauto.
+  - intros j cx0 r p Ej Er Ev. destruct (N.eq_dec (s_next s) j) as [<-|Hne].
+    + rewrite Hg in Ej. inversion Ej; subst cx0. congruence.
+    + unfold alloc_ctx in Ej. cbn in Ej. rewrite nm_get_put_other in Ej by exact Hne. eapply IR; eauto.
 Qed.
 Lemma tr_alloc_ctx {B} (P : st -> Prop) cx (k : N -> M B) R : stable P -> x_vars cx = [] -> x_retval cx = None ->
   (forall id, tr (fun s => P s /\ ctxkind id (x_isrec cx) s) (k id) R) ->
@@ -352,10 +378,12 @@ Proof.
   intros s s' H [cl [E R]]. destruct (k_meta _ _ H id cl E) as [cl' [E' [_ [_ [_ M4]]]]]. exists cl'. split; [exact E'|]. rewrite M4. eapply rec_ctx_K; eauto.
 Qed.
 
+Lemma Inv_retok s c cx r : Inv s -> nm_get c (s_ctxs s) = Some cx -> x_retval cx = Some r -> resok r s.
+Proof. intros HI E Er p Ev. split; [|eapply (i_retkind s HI); eauto]. intros tn k ->. apply rec_ctx_kind. eapply (i_retval s HI); eauto. Qed.
 (* the new record of the context has the same kind; if the context is a record's, every variable it lists is a cell of a record context *)
 Lemma upd_ctx_inv c cx cx' s : Inv s -> nm_get c (s_ctxs s) = Some cx -> x_isrec cx' = x_isrec cx ->
   (x_isrec cx = true -> forall nm id, In (nm, id) (x_vars cx') -> ownrec id s) ->
-  (forall r tn k, x_retval cx' = Some r -> r_val r = Some (PRec tn k) -> rec_ctx s k) ->
+  (forall r, x_retval cx' = Some r -> resok r s) ->
   let s' := set_ctxs (nm_put c cx' (s_ctxs s)) s in Inv s' /\ K s s'.
 Proof.
   intros HI E Hk Hv Hret s'.
@@ -366,14 +394,16 @@ Proof.
   assert (PC : forall j, plain_ctx s j -> plain_ctx s' j).
   { intros j [x [Ex Fx]]. unfold plain_ctx. rewrite G. destruct (N.eq_dec c j) as [<-|Hne]; [exists cx'; split; [reflexivity|]; assert (x = cx) by congruence; subst x; congruence|exists x; auto]. }
   split.
-  - destruct HI as [[H1 [H2 H3]] B C D E0]. constructor.
+  - destruct HI as [[H1 [H2 H3]] B C D E0 IK IR]. constructor.
     + split; [exact H1|]. split; [exact H2|]. intros j x Ex. rewrite G in Ex. destruct (N.eq_dec c j) as [<-|Hne]; [apply (H3 c cx E)|apply (H3 j x Ex)].
     + intros rc x nm j Erc Hr Hin. rewrite G in Erc. destruct (N.eq_dec c rc) as [<-|Hne].
       * inversion Erc; subst x. rewrite Hk in Hr. destruct (Hv Hr nm j Hin) as [cl [Ecl Ho]]. exists cl. split; [exact Ecl|apply RC; exact Ho].
       * destruct (B rc x nm j Erc Hr Hin) as [cl [Ecl Ho]]. exists cl. split; [exact Ecl|apply RC; exact Ho].
     + exact C.
     + intros j cl tn k Ej Ev. apply RC. eapply D; eauto.
-    + intros j x r tn k Ej Er Ev. apply RC. rewrite G in Ej. destruct (N.eq_dec c j) as [<-|Hne]; [inversion Ej; subst x; eapply Hret; eauto|eapply E0; eauto].
+    + intros j x r tn k Ej Er Ev. apply RC. rewrite G in Ej. destruct (N.eq_dec c j) as [<-|Hne]; [inversion Ej; subst x; apply rec_ctx_kind; eapply (proj1 (Hret r Er _ Ev)); reflexivity|eapply E0; eauto].
+    + exact IK.
+    + intros j x r p Ej Er Ev. rewrite G in Ej. destruct (N.eq_dec c j) as [<-|Hne]; [inversion Ej; subst x; exact (proj2 (Hret r Er _ Ev))|eapply IR; eauto].
   - constructor.
     + cbn. lia.
     + intros j cl Ej. exists cl. split; [exact Ej|apply same_meta_refl].
@@ -382,9 +412,6 @@ Proof.
     + intros j cl Ej _. exact Ej.
 Qed.
 
-Definition resok (r : result) (s : st) : Prop := forall p, r_val r = Some p -> valok p s.
-Lemma stable_resok r : stable (resok r).
-Proof. intros s s' H R p E. eapply stable_valok; eauto. Qed.
 
 (* an update that leaves the variable table, the kind and the return value alone (arrays, types, call site) *)
 Lemma tr_upd_ctx_keepvars (P : st -> Prop) c f : stable P -> (forall k, x_vars (f k) = x_vars k /\ x_isrec (f k) = x_isrec k /\ x_retval (f k) = x_retval k) ->
@@ -394,7 +421,7 @@ Proof.
   - destruct (Hf cx) as [F1 [F2 F3]].
     destruct (upd_ctx_inv c cx (f cx) s HI E F2) as [I1 K1].
     { intros Hr nm id Hin. rewrite F1 in Hin. destruct (i_recvars s HI c cx nm id E Hr Hin) as [cl H]. exists cl. exact H. }
-    { intros r tn k Er Ev. rewrite F3 in Er. eapply (i_retval s HI); eauto. }
+    { intros r Er. rewrite F3 in Er. eapply Inv_retok; eauto. }
     split; [exact I1|]. split; [exact K1|eapply SP; eauto].
   - split; [exact HI|]. split; [apply K_refl|exact I].
 Qed.
@@ -404,7 +431,7 @@ Proof.
   intros SP Hr s HI HP. unfold upd_ctx, bind, get_ctx. destruct (nm_get c (s_ctxs s)) as [cx|] eqn:E; cbn [fst snd put_ctx modify].
   - destruct (upd_ctx_inv c cx (ctx_with_retval (Some r) cx) s HI E eq_refl) as [I1 K1].
     { intros Hk nm id Hin. cbn in Hin. destruct (i_recvars s HI c cx nm id E Hk Hin) as [cl H]. exists cl. exact H. }
-    { intros r0 tn k Er Ev. cbn in Er. inversion Er; subst r0. apply rec_ctx_kind. eapply (Hr s HP); eauto. }
+    { intros r0 Er. cbn in Er. inversion Er; subst r0. exact (Hr s HP). }
     split; [exact I1|]. split; [exact K1|eapply SP; eauto].
   - split; [exact HI|]. split; [apply K_refl|exact I].
 Qed.
@@ -418,7 +445,7 @@ Proof.
     { intros Hr nm j Hin. cbn [x_vars ctx_with_vars] in Hin. apply in_app_or in Hin. destruct Hin as [Hin|[Hin|[]]].
       - destruct (i_recvars s HI c cx nm j E Hr Hin) as [cl H]. exists cl. exact H.
       - inversion Hin; subst. eapply Hpre; eauto. }
-    { intros r tn k Er Ev. cbn in Er. eapply (i_retval s HI); eauto. }
+    { intros r Er. cbn in Er. eapply Inv_retok; eauto. }
     split; [exact I1|]. split; [exact K1|eapply SP; eauto].
   - split; [exact HI|]. split; [apply K_refl|exact I].
 Qed.
@@ -430,7 +457,7 @@ Proof.
   intros SP Hf Hv s HI HP. unfold upd_ctx, bind, get_ctx. destruct (nm_get c (s_ctxs s)) as [cx|] eqn:E; cbn [fst snd put_ctx modify].
   - destruct (Hf cx) as [F2 F3]. destruct (upd_ctx_inv c cx (f cx) s HI E F2) as [I1 K1].
     { intros Hr nm id Hin. destruct (Hv s cx nm id HP Hr Hin) as [H|H]; [|exact H]. destruct (i_recvars s HI c cx nm id E Hr H) as [cl X]. exists cl. exact X. }
-    { intros r tn k Er Ev. rewrite F3 in Er. eapply (i_retval s HI); eauto. }
+    { intros r Er. rewrite F3 in Er. eapply Inv_retok; eauto. }
     split; [exact I1|]. split; [exact K1|eapply SP; eauto].
   - split; [exact HI|]. split; [apply K_refl|exact I].
 Qed.
@@ -483,13 +510,13 @@ Lemma stable_impl (X : Prop) F : stable F -> stable (fun s => X -> F s).
 Proof. intros H s s' HK HF x. eapply H; eauto. Qed.
 
 Ltac stab := repeat first [ assumption | apply stable_retok | apply stable_impl | apply stable_and | apply stable_true | apply stable_pure | apply stable_cellmeta | apply stable_ctxkind | apply stable_wr
-                          | apply stable_valok | apply stable_nonconst | apply stable_ownrec | (apply stable_Forall; intros ?) | (apply stable_Forall2; intros ? ?) ].
+                          | apply stable_valok | apply stable_nonconst | apply stable_ownrec | apply stable_fits | apply stable_resok | (apply stable_Forall; intros ?) | (apply stable_Forall2; intros ? ?) ].
 
 Lemma tr_false {A} (P : st -> Prop) (m : M A) (Q : A -> st -> Prop) : (forall s, P s -> False) -> tr P m Q.
 Proof. intros H s _ HP. exfalso. eapply H; eauto. Qed.
 
 (* ------------------------------------------------------------------ Heap.v: the copy constructor *)
-Definition copy_val_tr (f : nat) : Prop := forall (P : st -> Prop) p, stable P -> (forall s, P s -> valok p s) -> tr P (copy_val f p) (fun v s => valok v s).
+Definition copy_val_tr (f : nat) : Prop := forall (P : st -> Prop) p, stable P -> (forall s, P s -> valok p s) -> tr P (copy_val f p) (fun v s => valok v s /\ payload_kind v = payload_kind p).
 Definition copy_ctx_tr (f : nat) : Prop := forall (P : st -> Prop) c, stable P -> (forall s, P s -> ctxkind c true s) -> tr P (copy_ctx f c) (fun c' s => ctxkind c' true s).
 
 Lemma Forall2_right {A B} (Q : B -> Prop) (R : A -> B -> Prop) l l' : Forall2 R l l' -> (forall x y, R x y -> Q y) -> Forall Q l'.
@@ -499,12 +526,12 @@ Lemma copy_tr : forall f, copy_val_tr f /\ copy_ctx_tr f.
 Proof.
   induction f as [|f [IHv IHc]].
   - split.
-    + intros P p SP HV. destruct p; cbn [copy_val]; try (eapply tr_post; [apply tr_ret|]; intros a0 s0 [-> Hs]; apply valok_nonrec; intros; discriminate). apply tr_failm.
+    + intros P p SP HV. destruct p; cbn [copy_val]; try (eapply tr_post; [apply tr_ret|]; intros a0 s0 [-> Hs]; split; [apply valok_nonrec; intros; discriminate|reflexivity]). apply tr_failm.
     + intros P c SP HV. cbn [copy_ctx]. apply tr_failm.
   - split.
-    + intros P p SP HV. destruct p as [| | | | | | | |tn c]; cbn [copy_val]; try (eapply tr_post; [apply tr_ret|]; intros a0 s0 [-> Hs]; apply valok_nonrec; intros; discriminate).
+    + intros P p SP HV. destruct p as [| | | | | | | |tn c]; cbn [copy_val]; try (eapply tr_post; [apply tr_ret|]; intros a0 s0 [-> Hs]; split; [apply valok_nonrec; intros; discriminate|reflexivity]).
       eapply tr_bind; [exact SP|apply IHc; [exact SP|intros s Hs; eapply HV; eauto]|]. intros c'.
-      eapply tr_post; [apply tr_ret|]. intros a s [-> [_ Hk]] tn' c0 E. inversion E; subst. exact Hk.
+      eapply tr_post; [apply tr_ret|]. intros a s [-> [_ Hk]]. split; [|reflexivity]. intros tn' c0 E. inversion E; subst. exact Hk.
     + intros P c SP HV. cbn [copy_ctx].
       eapply tr_bind; [exact SP|apply tr_get_ctx|]. intros cx.
       destruct (x_isrec cx) eqn:Hr; [|apply tr_false; intros s [Hs [Hk _]]; pose proof (ctxkind_unique _ _ _ _ Hk (HV s Hs)) as X; congruence].
@@ -516,16 +543,16 @@ Proof.
                         put_cell nid (mkCell (c_name cl) (c_type cl) (if keep then c_const cl else false) id v') ;;; ret nid)
                         (fun nid s => ownrec nid s /\ (keep = false -> nonconst nid s))).
       { intros keep src. eapply tr_bind; [exact SP1|apply tr_get_cell|]. intros cl.
-        eapply tr_bind; [stab|apply IHv; [stab|intros s [_ [_ Hv]]; exact Hv]|]. intros v'.
-        apply tr_alloc_cell; [stab|intros s [_ Hv]; exact Hv|]. intros nid.
+        eapply tr_bind; [stab|apply IHv; [stab|intros s [_ [_ [Hv _]]]; exact Hv]|]. intros v'.
+        apply tr_alloc_cell; [stab|intros s [[_ [_ [_ Hk]]] [Hv Hk']]; cbn [c_val c_type]; split; [exact Hv|congruence]|]. intros nid.
         eapply tr_post; [apply tr_ret|]. intros a s [-> [[[HP1 _] _] Hm]]. split.
         - eapply cellmeta_ownrec; [exact Hm|]. cbn. apply HP1.
         - intros ->. eapply cellmeta_nonconst; [exact Hm|reflexivity]. }
       eapply tr_bind; [exact SP1| |].
       { apply (tr_mapM P1 _ (fun (nv y : str * N) s => ownrec (snd y) s)); [exact SP1|intros; stab|]. intros nv _.
         eapply tr_bind; [exact SP1|apply tr_get_cell|]. intros cl.
-        eapply tr_bind; [stab|apply IHv; [stab|intros s [_ [_ Hv]]; exact Hv]|]. intros v'.
-        apply tr_alloc_cell; [stab|intros s [_ Hv]; exact Hv|]. intros nid.
+        eapply tr_bind; [stab|apply IHv; [stab|intros s [_ [_ [Hv _]]]; exact Hv]|]. intros v'.
+        apply tr_alloc_cell; [stab|intros s [[_ [_ [_ Hk]]] [Hv Hk']]; cbn [c_val c_type]; split; [exact Hv|congruence]|]. intros nid.
         eapply tr_post; [apply tr_ret|]. intros a s [-> [[[HP1 _] _] Hm]]. cbn [snd].
         eapply cellmeta_ownrec; [exact Hm|]. cbn. apply HP1. }
       intros vars'.
@@ -609,7 +636,7 @@ Proof.
   destruct l2 as [|e2 r2]; [eapply tr_true; apply tr_ret|].
   eapply tr_bind; [exact SP|apply tr_get_cell|]. intros cl.
   eapply tr_bind; [stab| |].
-  - apply H; [stab|]. intros s [Hs [_ Hv]]. split; [|exact Hv]. specialize (HF s Hs). inversion HF; assumption.
+  - apply H; [stab|]. intros s [Hs [_ [Hv _]]]. split; [|exact Hv]. specialize (HF s Hs). inversion HF; assumption.
   - intros u. eapply tr_pre; [|apply IH]. + intros s [[Hs _] _]. exact Hs. + intros s Hs. specialize (HF s Hs). inversion HF; assumption.
 Qed.
 
@@ -628,22 +655,22 @@ Proof.
   - split; intros P a b SP HV; [cbn [set_copy]|cbn [copy_var_data]]; apply tr_failm.
   - split.
     + intros P dst src SP HV. cbn [set_copy]. eapply tr_bind; [exact SP|apply tr_get_cell|]. intros d.
-      assert (ELSE : tr (fun s => P s /\ cellmeta dst d s /\ valok (c_val d) s)
+      assert (ELSE : tr (fun s => P s /\ cellmeta dst d s /\ valok (c_val d) s /\ payload_kind (c_val d) = dk (c_type d))
                         (if dk_eqb (dk (c_type d)) (payload_kind src) then v' <- copy_val f src ;; set_cell_val dst v' else crash "Variable::set: payload reinterpreted as another type")
                         (fun _ _ => True)).
-      { destruct (dk_eqb (dk (c_type d)) (payload_kind src)); [|apply tr_failm].
+      { destruct (dk_eqb (dk (c_type d)) (payload_kind src)) eqn:Edk; [|apply tr_failm]. apply dk_eqb_eq in Edk.
         eapply tr_bind; [stab|apply (proj1 (copy_tr f)); [stab|intros s [Hs _]; apply (HV s Hs)]|]. intros v'.
-        apply tr_set_cell_val. intros s [[Hs _] Hv]. split; [apply (HV s Hs)|exact Hv]. }
+        apply tr_set_cell_val. intros s [[Hs [Hm _]] [Hv Hk]]. split; [apply (HV s Hs)|]. split; [exact Hv|]. eapply cellmeta_fits; [exact Hm|congruence]. }
       destruct (c_val d) as [| | | | | | | |tn dc] eqn:Ed; try (rewrite <- Ed in ELSE; exact ELSE).
       destruct src as [| | | | | | | |tn' sc]; try (rewrite <- Ed in ELSE; exact ELSE).
-      apply tr_composite_assign; [stab|]. apply IHc; [stab|]. intros s [_ [_ Hv]]. eapply Hv. exact Ed.
+      apply tr_composite_assign; [stab|]. apply IHc; [stab|]. intros s [_ [_ [Hv _]]]. eapply Hv. exact Ed.
     + intros P dc sc SP HV. cbn [copy_var_data].
       eapply tr_bind; [exact SP|apply tr_get_ctx|]. intros dx.
       destruct (x_isrec dx) eqn:Hr; [|apply tr_false; intros s [Hs [Hk _]]; pose proof (ctxkind_unique _ _ _ _ Hk (HV s Hs)) as X; congruence].
       eapply tr_bind; [stab|apply tr_ro; apply ro_get_ctx|]. intros sx.
       eapply tr_bind; [stab| |].
       * apply tr_zipM; [stab|]. intros dv sv Hin. eapply tr_bind; [stab|apply tr_get_cell|]. intros cl.
-        apply IHs; [stab|]. intros s [[[_ [_ [HF _]]] _] [_ Hv]]. split; [|exact Hv].
+        apply IHs; [stab|]. intros s [[[_ [_ [HF _]]] _] [_ [Hv _]]]. split; [|exact Hv].
         specialize (HF Hr). rewrite Forall_forall in HF. apply (HF dv Hin).
       * intros u. apply tr_zipM; [stab|]. intros da sa Hin.
         eapply tr_bind; [stab|apply tr_get_arr|]. intros a1. eapply tr_bind; [stab|apply tr_ro; apply ro_get_arr|]. intros a2.
@@ -660,27 +687,28 @@ Qed.
 Lemma tr_assign_val (P : st -> Prop) fuel dst v : stable P -> (forall s, P s -> wr dst s) -> tr P (assign_val fuel dst v) (fun _ _ => True).
 Proof.
   intros SP HV. unfold assign_val. eapply tr_bind; [exact SP|apply tr_get_cell|]. intros d.
-  assert (SET : forall p, (forall tn c, p <> PRec tn c) -> tr (fun s => P s /\ cellmeta dst d s /\ valok (c_val d) s) (set_cell_val dst p) (fun _ _ => True)).
-  { intros p Hp. apply tr_set_cell_val. intros s [Hs _]. split; [apply (HV s Hs)|apply valok_nonrec; exact Hp]. }
-  destruct (dk (c_type d)); try apply tr_failm;
-    (destruct (r_val v) as [p|]; [|apply tr_failm]); destruct p; try apply tr_failm; try (apply SET; intros; discriminate).
-  - destruct (c_val d); try apply tr_failm. destruct (str_eqb tn0 tn); [apply SET; intros; discriminate|apply tr_failm].
-  - destruct (c_val d); try apply tr_failm. destruct (str_eqb tn0 tn); [apply SET; intros; discriminate|apply tr_failm].
+  assert (SET : forall p (Q : st -> Prop), (forall tn c, p <> PRec tn c) -> payload_kind p = dk (c_type d) -> (forall s, Q s -> P s /\ cellmeta dst d s) ->
+                tr Q (set_cell_val dst p) (fun _ _ => True)).
+  { intros p Q Hp Hk HQ. apply tr_set_cell_val. intros s Hq. destruct (HQ s Hq) as [Hs Hm]. split; [apply (HV s Hs)|]. split; [apply valok_nonrec; exact Hp|eapply cellmeta_fits; eauto]. }
+  destruct (dk (c_type d)) eqn:Ek; try apply tr_failm;
+    (destruct (r_val v) as [p|]; [|apply tr_failm]); destruct p; try apply tr_failm; try (apply SET; [intros; discriminate|reflexivity|intros s0 H0; tauto]).
+  - destruct (c_val d); try apply tr_failm. destruct (str_eqb tn0 tn); [apply SET; [intros; discriminate|reflexivity|intros s0 H0; tauto]|apply tr_failm].
+  - destruct (c_val d); try apply tr_failm. destruct (str_eqb tn0 tn); [apply SET; [intros; discriminate|reflexivity|intros s0 H0; tauto]|apply tr_failm].
   - destruct (c_val d) as [| | | | | | | |tn0 dc] eqn:Ed; try apply tr_failm.
-    apply tr_composite_assign; [stab|]. apply (proj2 (set_copy_both fuel)); [stab|]. intros s [_ [_ Hv]]. eapply Hv. first [exact Ed|reflexivity].
+    apply tr_composite_assign; [stab|]. apply (proj2 (set_copy_both fuel)); [stab|]. intros s [_ [_ [Hv _]]]. eapply Hv. first [exact Ed|reflexivity].
 Qed.
 
 Lemma tr_store_tree : forall f (P : st -> Prop) id t, stable P -> (forall s, P s -> wr id s) -> tr P (store_tree f id t) (fun _ _ => True).
 Proof.
   induction f as [|f IH]; intros P id t SP HV; cbn [store_tree]; [apply tr_failm|].
   eapply tr_bind; [exact SP|apply tr_get_cell|]. intros cl.
-  assert (SET : forall p, (forall tn c, p <> PRec tn c) -> tr (fun s => P s /\ cellmeta id cl s /\ valok (c_val cl) s) (set_cell_val id p) (fun _ _ => True)).
-  { intros p Hp. apply tr_set_cell_val. intros s [Hs _]. split; [apply (HV s Hs)|apply valok_nonrec; exact Hp]. }
-  destruct t; try (apply SET; intros; discriminate); [eapply tr_true; apply tr_ret|].
-  destruct (c_val cl) as [| | | | | | | |tn0 rc] eqn:Ed; try apply tr_failm.
+  assert (SET : forall p, (forall tn c, p <> PRec tn c) -> payload_kind p = payload_kind (c_val cl) ->
+                tr (fun s => P s /\ cellmeta id cl s /\ valok (c_val cl) s /\ payload_kind (c_val cl) = dk (c_type cl)) (set_cell_val id p) (fun _ _ => True)).
+  { intros p Hp Hk. apply tr_set_cell_val. intros s [Hs [Hm [_ Hk']]]. split; [apply (HV s Hs)|]. split; [apply valok_nonrec; exact Hp|eapply cellmeta_fits; [exact Hm|congruence]]. }
+  destruct t; destruct (c_val cl) as [| | | | | | | |tn0 rc] eqn:Ed; try apply tr_failm; try (apply SET; [intros; discriminate|first [rewrite Ed|idtac]; reflexivity]); try (eapply tr_true; apply tr_ret).
   eapply tr_bind; [stab|apply tr_get_ctx|]. intros cx.
   destruct (x_isrec cx) eqn:Hr.
-  2:{ apply tr_false. intros s [[_ [_ Hv]] [Hk _]]. pose proof (ctxkind_unique _ _ _ _ Hk (Hv _ _ ltac:(first [exact Ed|reflexivity]))) as X. congruence. }
+  2:{ apply tr_false. intros s [[_ [_ [Hv _]]] [Hk _]]. pose proof (ctxkind_unique _ _ _ _ Hk (Hv _ _ ltac:(first [exact Ed|reflexivity]))) as X. congruence. }
   eapply tr_bind; [stab| |].
   - apply tr_zipM; [stab|]. intros nv t' Hin. apply IH; [stab|]. intros s [_ [_ [HF _]]]. specialize (HF Hr). rewrite Forall_forall in HF. apply (HF nv Hin).
   - intros u. apply tr_zipM; [stab|]. intros na ts Hin. eapply tr_bind; [stab|apply tr_get_arr|]. intros a.
